@@ -174,7 +174,7 @@ FCause(f, id) == IF mon.early[f] = "processor" THEN "D1-flush-during-shutdown"
                  ELSE IF id \in mon.aborted THEN "D2-chunk-aborted"
                  ELSE IF id \in mon.sdheld THEN "D5-flush-overtakes-final-flush"
                  ELSE "flush-missed"
-SCause(s, id) == IF id \in mon.raced THEN "D4-enqueue-after-final-flush"
+SCause(s, id) == IF id \in mon.raced /\ id \notin mon.sdheld THEN "D4-enqueue-after-final-flush"
                  ELSE IF mon.early[s] = "processor" THEN "D1-shutdown-during-shutdown"
                  ELSE IF id \in mon.aborted THEN "D2-chunk-aborted"
                  ELSE "shutdown-missed"
@@ -255,7 +255,9 @@ Next == \/ \E g \in Emitters : ECall(g) \/ ECheck(g) \/ EEnqueue(g) \/ ETrigger(
         \/ \E s \in Stoppers : SCall(s) \/ SSwap(s) \/ SKill(s) \/ SWaitPoll(s) \/ SFlush(s) \/ SELock(s) \/ SESend(s)
                                \/ SEWait(s) \/ SXSwap(s) \/ SXLock(s) \/ SXWait(s) \/ SRet(s)
 
-Fairness == /\ WF_vars(PollTrig \/ PollKill \/ PollReady \/ PollDequeue \/ PollRetrig)
+(* Go's select chooses at random among the ready cases: a closed pollKill is taken eventually even if the ticker *)
+(* keeps firing (strong fairness); everything else only needs weak fairness.                                      *)
+Fairness == /\ WF_vars(PollTrig \/ PollReady \/ PollDequeue \/ PollRetrig) /\ SF_vars(PollKill)
             /\ WF_vars(XRecv \/ XDone \/ XBegin \/ XEnd(TRUE, FALSE))
             /\ \A g \in Emitters : WF_vars(ECheck(g) \/ EEnqueue(g) \/ ETrigger(g) \/ ERet(g))
             /\ \A f \in Flushers : WF_vars(FCheck(f) \/ FMLock(f) \/ FMSend(f) \/ FMWait(f) \/ FRet(f)) /\ SF_vars(FDequeue(f))
